@@ -10,7 +10,7 @@ from common import rng, hexs, unhexs
 import ggvals as G
 
 FAMILY = "val"
-HARNESS = {"source": "x_val.c", "exclude_objs": ["value"], "extra_sources": ["x_gg.h", "cifio.h"], "leak_clean": True}
+HARNESS = {"source": "x_val.c", "exclude_objs": ["value"], "extra_sources": ["x_val_ops.h", "x_gg.h", "cifio.h"], "leak_clean": True}
 RULE = ("random op sequences (<= 30 ops quick / <= 300 thorough) over 8 value slots and 4 packet slots: create, build, clone "
         "(fresh and onto existing objects), init*, copy_char, list insert/set/remove/get with indices around 0 and size and "
         "sizes straddling the capacity steps 4/8/12/18, table and packet set/get/remove/keys with spelling variants, members "
